@@ -495,7 +495,9 @@ def direct_clauses(pid, bench, ta, a, tb, b):
                                     "before": m1, "after": m2})
                             break
         if pid == "C08":
-            for c, d in ((">=", "<="), (">", "<"), ("<=", ">="), ("=", ">"), ("!=", ">=")):
+            for c, d in ((">=", "<="), (">", "<"), ("<=", ">="), ("=", ">"), ("!=", ">="),
+                         # one comparator on both (what a de-duplication by equality may merge), and the two upper / lower kinds
+                         ("<=", "<="), (">=", ">="), ("!=", "!="), ("=", "="), ("<=", "<"), ("<", "<="), (">=", ">"), (">", ">=")):
                 try:
                     cons = sorted([mk(c, x), mk(d, y)])
                     simp = VersionConstraint.simplify(list(cons))
